@@ -1,4 +1,4 @@
-import sys, re, ast; sys.path[:0]=['/repo','/verif/.deps','/verif/design_probes']
+import sys, os, re, ast; sys.path[:0]=[os.environ.get('VERIF_REPO','/repo'),'/verif/.deps','/verif/design_probes']
 import torch, warnings
 from qucumber.nn_states import PositiveWaveFunction
 from qucumber.callbacks import CallbackBase
